@@ -190,7 +190,8 @@ impl<
         if buf.is_empty() {
             Ok(0)
         } else {
-            self.read(buf)
+            // `self.read(buf)` would resolve to this trait method again
+            Self::read(self, buf)
         }
     }
 }
@@ -207,7 +208,8 @@ impl<
         if buf.is_empty() {
             Ok(0)
         } else {
-            self.write(buf)?;
+            // `self.write(buf)` would resolve to this trait method again
+            Self::write(self, buf)?;
             Ok(buf.len())
         }
     }
